@@ -315,6 +315,10 @@ impl Ingester {
         // Compute shard key for this batch (for monitoring)
         let shard_id = self.compute_shard_id(&batch);
         let result = async {
+            // A batch that can never be flushed must be rejected before it is logged and
+            // buffered: once accepted, its rows are kept until a flush stores them.
+            self.extract_min_timestamp(&batch)?;
+
             // Check if shard is being split - if so, use dual-write
             if let Some(split_state) = self.metadata.get_split_state(&shard_id).await? {
                 use crate::sharding::SplitPhase;
@@ -653,7 +657,12 @@ impl Ingester {
             if self.should_flush(&buffer) {
                 let (batches, seqs) = buffer.take_with_seqs();
                 drop(buffer);
-                self.flush_batches(batches, seqs).await?;
+                // The batch of this write is accepted at this point (logged and buffered).
+                // A flush that fails keeps its rows for the next flush, so it must not turn
+                // the write into an error: the client would retry rows that get stored anyway.
+                if let Err(e) = self.flush_batches(batches, seqs).await {
+                    warn!(error = %e, "Threshold flush failed, rows kept for the next flush");
+                }
             }
 
             return Ok(());
@@ -687,16 +696,15 @@ impl Ingester {
         if !batches.is_empty() {
             groups.push((batches, seqs));
         }
+        // Every group gets its attempt: one that keeps failing must not hold back the others.
         let mut result = Ok(());
         let mut failed = Vec::new();
         for (group, group_seqs) in groups {
-            if result.is_err() {
-                failed.push((group, group_seqs));
-                continue;
-            }
             if let Err(e) = self.flush_group(&group, &group_seqs).await {
                 failed.push((group, group_seqs));
-                result = Err(e);
+                if result.is_ok() {
+                    result = Err(e);
+                }
             }
         }
         if !failed.is_empty() {
